@@ -59,7 +59,7 @@ def classify_with_emulations(case, flat, run, mism, compare=None):
     for flags in ({"emulate_sampled_start": True}, {"emulate_stale": True},
                   {"emulate_sampled_start": True, "emulate_stale": True}):
         mr2 = M.simulate(flat, **flags)
-        if not (mr2.stale or mr2.sampled):
+        if not (mr2.stale or mr2.sampled or mr2.stale_armed):
             continue
         if compare(case, run, mr2):
             continue
@@ -68,9 +68,10 @@ def classify_with_emulations(case, flat, run, mism, compare=None):
             vs.append(Violation(f"node with an all-Unchecked validity gate inside a nested graph ran at child start "
                                 f"although its boundary source never ticked: (uid,t)={mr2.sampled[:3]}",
                                 "nested-start-samples-unset-source", {"runs": mr2.sampled[:10]}))
-        if mr2.stale:
-            vs.append(Violation(f"user code ran at a cancelled wake-up time: (uid,t)={mr2.stale[:3]}",
-                                "cancelled-wakeup-still-evaluates", {"runs": mr2.stale[:10]}))
+        if mr2.stale or mr2.stale_armed:
+            vs.append(Violation(f"node stays armed / user code ran at a cancelled wake-up time: runs (uid,t)={mr2.stale[:3]} "
+                                f"armed (uid,t,slot)={mr2.stale_armed[:3]}",
+                                "cancelled-wakeup-still-evaluates", {"runs": mr2.stale[:10], "armed": mr2.stale_armed[:10]}))
         return mr2, vs
     return M.simulate(flat), [Violation("; ".join(mism[:4]), None, {"mismatches": mism[:20]})]
 
